@@ -497,3 +497,34 @@ Example ex_deferred :
   | None => False
   end.
 Proof. vm_compute. repeat split; reflexivity. Qed.
+
+(* ====================================================================================================
+   Wave 7: device API entry points beyond register / unregister, and scale. *)
+
+(* Device::AddPort with a new port object whose id (and direction) is already used by one of the
+   device's ports: the call returns true, nothing changes -- the existing port stays the device's port,
+   stays patched and listed, and the new object remains the caller's.  ([zstep] returns the same state.) *)
+Theorem c03_addport_duplicate_ignored : forall (zc : zcfg) (ops : list zop) (z : zstate) (p : N),
+  zrun zc (zinit zc) ops = Some z ->
+  exists r, zstep zc z (ZAddDup p) = ZOk z r /\
+    (forall pc dc, port_of (xc_cfg (zc_xc zc)) (zbase z) p = Some pc ->
+                   dev_cfg (xc_cfg (zc_xc zc)) (pc_dev pc) = Some dc -> r = RBool true).
+Proof. exact c03_addport_duplicate_ignored_l. Qed.
+Print Assumptions c03_addport_duplicate_ignored.
+
+(* c03y_gc and c03_gc are stated for any number of unused universes; a concrete instance beyond 16:
+   40 universes registered by a client, all released, one collection removes and saves every one *)
+Example ex_scale_gc :
+  let ns := map N.of_nat (seq 200 40) in
+  let zc := mkzcfg ex_xcfg (fun _ => false) in
+  match zrun zc (zinit zc) (map (fun n => ZY (YX (XSvcRegister n 1))) ns ++
+                            map (fun n => ZY (YX (XSvcUnregister n 1))) ns) with
+  | Some z =>
+    length (s_store (zbase z)) = 40%nat /\
+    match zstep zc z (ZY (YX (XBase GC))) with
+    | ZOk z' (RSaved l) => s_store (zbase z') = [] /\ length l = 40%nat
+    | _ => False
+    end
+  | None => False
+  end.
+Proof. vm_compute. repeat split; reflexivity. Qed.
